@@ -89,6 +89,12 @@ instrumentation)
   ( cd "$TMP/tree" && go build ./... && go vet ./verifsim && go test -vet=off -count=1 ./... ) || { echo "SELFTEST instrumentation: FAILED"; exit 1; }
   echo "SELFTEST instrumentation: instrumented copy builds and passes the repository's tests"
   ;;
+models)
+  # unit tests of the harness's own models and tools (validator never stricter than the implementation,
+  # automaton table, shrinker, reflective hasher), against the tree under test
+  ( cd "$VERIF/sim" && sed "s#=> /repo\$#=> $REPO#" go.mod > "$TMP/go.mod" && cat "$REPO/go.sum" go.sum | sort -u > "$TMP/go.sum" && go test -modfile="$TMP/go.mod" -count=1 ./model ./world ./tape ) || { echo "SELFTEST models: FAILED"; exit 1; }
+  echo "SELFTEST models: ok"
+  ;;
 *)
-  echo "usage: selftest.sh sensitivity [pattern] | determinism [props] | instrumentation" >&2; exit 2;;
+  echo "usage: selftest.sh sensitivity [pattern] | determinism [props] | instrumentation | models" >&2; exit 2;;
 esac
